@@ -176,7 +176,7 @@ class Explorer:
         self.add(expr if guess else z3.Not(expr))
         return guess
 
-    def choose_int(self, term, cap=40) -> int:
+    def choose_int(self, term, cap=160) -> int:
         """Concretise a symbolic integer: fork over all its feasible values (bounded)."""
         term = z3.simplify(term)
         if z3.is_int_value(term):
